@@ -25,6 +25,8 @@ BATTERY = [
     "é + ünit.price * ärea(1)", "ärea(é) ; ünit.price", "[é, {é: ünit.price}]", "日本 == é ? ärea() : 日本", "- é ++",
     # left-leaning chains in which an operator returns after another one (X .. Y .. X), and the same to the right
     "a - b + c - d", "a + b - c + d", "(a * b - c) * d", "a - b - c + d - e + f", "a == b != c == d", "a = b += c = d", "a && b || c && d || e", "x - (y + (z - w))", "f(a) - g(b) + f(c) - g(d)",
+    # prefix / postfix operators applied directly to literals of every kind
+    "- 10 * x > - y", "x * - 10", "+ 5", "- 0.5 - - 0.5", "! true", "not false", "- 'a'", "7 ++", "[- 1, + 2, ! false]", "f(- 3)", "- 1 ? - 2 : - 3",
     # deep trees: descriptors apply at every depth
     "x" + " + 1" * 140, "[" * 130 + "x" + "]" * 130, "- " * 135 + "x", "f(" * 132 + "x" + ")" * 132, "x" + " ++" * 1 + " + y" * 129,
 ]
